@@ -104,6 +104,11 @@ def run(ctx):
         sid[0] += 1
         scenarios.append(recipe_rendezvous(sid[0]))
         expected[sid[0]] = "release-rendezvous-lost"
+    if lc.dev_open(ctx, "Code_ClaimNotAtomic"):
+        # a destroy that cannot be honoured (HonestError): after the double claim (finding of C04, task reuse) the release of
+        # the task the other environment took over is refused, the forced teardown fails and the destroy must say so
+        sid[0] += 1
+        scenarios.append(lc.recipe_double_claim(sid[0], prefix="d", then_destroy=True))
     # 3. scenarios walked by TLC
     ndes, nfail, npar, nsil = (70, 40, 30, 3) if quick else (500, 250, 250, 10)
     big = {"k%d" % i for i in range(1, 21)}
